@@ -427,3 +427,45 @@ func nilTest(info *types.Info, e ast.Expr) (ast.Expr, bool, bool) {
 	}
 	return nil, false, false
 }
+
+// Reaches reports whether there is a CFG path on which location a executes
+// before location b (a != b).
+func (f *FCFG) Reaches(a, b Loc) bool {
+	if a.B == b.B && a.I < b.I {
+		return true
+	}
+	n := len(f.G.Blocks)
+	seen := make([]bool, n)
+	var st []*cfg.Block
+	for _, s := range a.B.Succs {
+		if !seen[s.Index] {
+			seen[s.Index] = true
+			st = append(st, s)
+		}
+	}
+	for len(st) > 0 {
+		x := st[len(st)-1]
+		st = st[:len(st)-1]
+		if x == b.B {
+			return true
+		}
+		for _, s := range x.Succs {
+			if !seen[s.Index] {
+				seen[s.Index] = true
+				st = append(st, s)
+			}
+		}
+	}
+	return false
+}
+
+// ReachesNode is Reaches on AST nodes (true when either cannot be located,
+// i.e. conservatively "may follow").
+func (f *FCFG) ReachesNode(a, b ast.Node) bool {
+	la, ok1 := f.Locate(a)
+	lb, ok2 := f.Locate(b)
+	if !ok1 || !ok2 {
+		return true
+	}
+	return f.Reaches(la, lb)
+}
